@@ -11,7 +11,7 @@
 (*   {ev:"rqpdu", req}                 A-ASSOCIATE-RQ seen on the wire     *)
 (*   {ev:"anspdu", obs}                the acceptor's answer on the wire   *)
 (*   {ev:"est", rq, ac}                both ends' results of establish     *)
-(*   {ev:"send", side, via, n, ret, wire}  one send / send_pdata call and  *)
+(*   {ev:"send", side, via, n, pdvs, ret, wire}  one send / send_pdata call and *)
 (*                                     the PDUs it put on the wire         *)
 (* Registry facts: IOEnv.FACTS.                                            *)
 (***************************************************************************)
@@ -93,8 +93,10 @@ SumData(w, i) == IF i > Len(w) THEN 0 ELSE (w[i][2] - 6) + SumData(w, i + 1)
 TSend == /\ Ev("send") /\ sc # <<>> /\ sc.exp.est
          /\ LET peer == IF R.side = "rq" THEN sc.exp.rqPeer ELSE sc.exp.acPeer IN
             IF R.via = "send"
-              THEN (* n = size of the encoded PDU, header included *)
-                   IF N!SendAllowed(R.n, peer)
+              THEN (* n = size of the encoded PDU, header included; for a PDU of   *)
+                   (* several PDVs it is what the spec computes from the fragments *)
+                   /\ (R.pdvs # <<>> => (R.n[1] = 0 /\ R.n[2] = N!EncodedLen(R.pdvs)))
+                   /\ IF N!SendAllowed(R.n, peer)
                      THEN R.ret = "ok" /\ Len(R.wire) = 1 /\ N!AddSmall(R.wire[1], 6) = R.n
                      ELSE R.ret = "toolong" /\ R.wire = <<>>
               ELSE (* send_pdata of n payload bytes (n < 65536 here) *)
